@@ -67,7 +67,7 @@ Lemma norm_abs : forall cwd rel, wf_cwd cwd = true -> wf_rel rel = true ->
   norm cwd (join cwd rel) = rel.
 Proof.
   intros cwd rel Hc Hr. unfold norm, strip_cwd, join.
-  rewrite prefixb_refl_app, skipn_app_len. rewrite N.eqb_refl.
+  rewrite prefixb_refl_app, skipn_app_len. rewrite N.eqb_refl. cbn [orb].
   destruct cwd as [|c0 cw]; [discriminate|].
   destruct rel as [|r rest] eqn:Er; [discriminate|]. rewrite <- Er in *.
   pose proof (norm_rel (c0 :: cw) rel Hc Hr) as H. unfold norm, strip_cwd in H.
